@@ -1,23 +1,13 @@
 import CanopenModel.Sdo.Disturb
 import CanopenModel.Driver.C01
 import CanopenModel.Driver.C07Block
+import CanopenModel.Driver.C07Lib
 namespace Canopen.Driver.C07
 open Canopen Canopen.Sdo Canopen.Spec Canopen.Driver.C01
 
 abbrev DS := PS × DState
 
-def parseKind (s : String) : Option Kind :=
-  match s.splitOn ":" with
-  | ["lost"] => some .lost
-  | ["replace", h] => (parseHex h).map .replace
-  | ["toggle"] => some .flipToggle
-  | ["scs", n] => n.toNat?.map .setScs
-  | ["mux"] => some .bumpMux
-  | ["dup"] => some .dup
-  | ["dupd"] => some .dupDeferred
-  | ["late"] => some .late
-  | ["stale", h] => (parseHex h).map .staleBetween
-  | _ => none
+export Canopen.Driver.C07L (parseKind)
 
 /-- the disturbed peer also logs what it actually delivered to the client -/
 def dpeer (at_ : Nat) (k : Kind) : Peer (DS × List Bytes) := fun (ds, delivered) req =>
@@ -44,6 +34,7 @@ def runAllX (at_ : Nat) (k : Kind) : Chan (DS × List Bytes) → List Xfer → L
 def step (args : List String) : String :=
   match args with
   | "bdist" :: _ => C07B.step args
+  | "distlib" :: _ => C07L.step args
   | ["dist", held, si, ex, es, cuts, at_, kind, xs] =>
     match parseHeld held, parseBool si, parseBool ex, parseBool es, parseNatList cuts, at_.toNat?, parseKind kind,
           (xs.splitOn ";").mapM parseXfer with
